@@ -8,30 +8,13 @@ BASE = ("cd /repo && /venv/bin/python -m pytest -ra -q -p no:cacheprovider --tim
         "--continue-on-collection-errors --junitxml=/tmp/pamiq_baseline.junit.xml")
 
 # id -> (technique, level text, level note, design ref)
-CLAIMED = {
-    "C15": ("Coq theorems over an executable scheduler model with an adversarial clock stream + differential correspondence (vm_compute) against the real schedulers",
-            "Machine-checked proof (Coq 8.16.1) that, for every interval, callback list, operation sequence and every clock behaviour between any two reads, "
-            "the model's trace satisfies the firing oracle (fires only when >= interval elapsed, fires when > interval elapsed, never restarts without running every callback once in order; "
-            "step schedulers fire on exactly every n-th update; the save condition answers true iff its scheduler fired). The model is tied to /repo by running the real "
-            "TimeIntervalScheduler / StepIntervalScheduler / PeriodicSaveCondition under a scripted clock on generated cases and comparing traces inside Coq; the same oracle is evaluated on the implementation's traces.",
-            "Trusted: Coq kernel + vm_compute; the hand-written model (coq/Model/Sched.v); the scripted-clock runner; exact float arithmetic on dyadic ticks. The theorem is about the model; the code is tied to it only on the sampled cases.",
-            "DESIGN.md §4 C15"),
-    "C11": ("Coq theorems over an executable buffer model (random draws as oracle arguments) + black-box contract oracle proved on the model and evaluated on the real buffers",
-            "Machine-checked proof that for every buffer class (plain / dict, any non-empty key set), capacity >= 1, rational probability, and every sequence of add/get/len/"
-            "mutate-returned/save+load with any admissible random draws, the model obeys the contract oracle (sequential = last max_size in order; random-replacement: bound, fill order, "
-            "at most one slot changes to the added sample, replaced when draw < p, kept when draw > p and always when p = 0, only added samples, keys aligned, wrong keys rejected unchanged, "
-            "copies returned, len = data, save/load keeps content, whole documented parameter range accepted). Tied to /repo by running the four public classes with scripted random on generated cases; "
-            "outputs compared with the model and checked by the same oracle inside Coq.",
-            "Trusted: Coq kernel + vm_compute; coq/Model/Buffers.v; the runner's scripted `random` stub and view canonicalisation; pickle round trip. Theorems are about the model.",
-            "DESIGN.md §4 C11"),
-    "C06": ("Coq refinement proof: the anchor arithmetic of TimeController refines the abstract scaled/pausable clock, for every operation history over Q + differential correspondence on a virtual raw clock",
-            "Machine-checked refinement: for every history of read/set-scale/pause/resume/export/load/sleep operations with any rational arguments and any real-time advance between them, "
-            "every output of the model of time.py equals the output of the abstract clock 'value grows at rate scale while not paused' (hence monotone, still while paused, continuous across "
-            "scale changes / pause / resume, pure reads and exports, continues after load, sleep(d) lasts d/scale). The model is tied to /repo by re-executing pamiq_core/time.py on a virtual "
-            "stdlib time module and comparing all three channels exactly (dyadic values) inside Coq, against both the code model and the abstract clock.",
-            "Trusted: Coq kernel + vm_compute; coq/Model/Clock.v; harness/sim/faketime.py; exactness of float arithmetic on the generated dyadic values. Real time advances only between operations; float rounding not modelled.",
-            "DESIGN.md §4 C06"),
-}
+import importlib, sys
+sys.path.insert(0, str(V))
+CLAIMED = {}
+for f in sorted((V / "harness" / "props").glob("c*.py")):
+    mod = importlib.import_module(f"harness.props.{f.stem}")
+    if getattr(mod, "CLAIMED", True):
+        CLAIMED[mod.ID] = (mod.TECHNIQUE, mod.LEVEL_TEXT, mod.LEVEL_NOTE, mod.DESIGN_REF)
 REASON_TODO = "not claimed at this commit: model and correspondence for this property are not built yet (plan in DESIGN.md §4)"
 
 props = [json.loads(l) for l in (V / "properties.jsonl").read_text().splitlines() if l.strip()]
